@@ -46,10 +46,12 @@ pub fn pragma_gaps(toks: &[String]) -> Vec<bool> {
         if toks[i] == "pragma" {
             // gaps before the value and before `;` (the lexer reads the value as raw text); the gap between
             // `pragma` and its name is ordinary
-            for g in (i + 2)..=(i + 3).min(n) {
+            // (a value may consist of several constraints: every gap up to and including the one before `;`)
+            let end = (i + 2..n).find(|&k| toks[k] == ";").unwrap_or((i + 3).min(n));
+            for g in (i + 2)..=end.min(n) {
                 v[g] = true;
             }
-            i += 4;
+            i = end + 1;
         } else {
             i += 1;
         }
